@@ -843,7 +843,8 @@ func genC20In(w *bufio.Writer, rng *hx.Rng, tier string) {
 			r := c20Rec{sid: uint64(rng.Range(1, 3)), name: c20Names[rng.Intn(len(c20Names))], cur: int64(rng.Range(0, 100)),
 				streamOff: "x", pass: !rng.Chance(1, 12), isNew: rng.Chance(1, 10)}
 			if rng.Chance(1, 6) {
-				r.streamOff = strconv.Itoa(rng.Range(-1, 100))
+				// around the boundary of the already-committed check (current < saved offset)
+				r.streamOff = strconv.FormatInt([]int64{r.cur - 1, r.cur, r.cur + 1, 0, -1, int64(rng.Range(1, 100))}[rng.Intn(6)], 10)
 			}
 			if rng.Chance(1, 4) {
 				r.hasMeta, r.mk, r.mv = true, []string{"k", "j", "level", ""}[rng.Intn(4)], []string{"v1", "svc-a", ""}[rng.Intn(3)]
